@@ -38,7 +38,8 @@ ASSUMPTIONS = [
     'SQLite returns exactly the FrameLUT rows matching the WHERE clause (the clause is pinned textually in T5)',
     'the temporary channel table behaves like the four-statement fragment `Tiling.tempOp` (DROP [IF EXISTS], CREATE [IF NOT EXISTS], INSERT [OR '
     'REPLACE] under one UNIQUE column, rollback of a failed executemany); compared with the rows of the real table after every step of every '
-    'history; table locks held by open cursors are NOT modelled',
+    'history; a table lock is modelled as one flag (an abandoned frame query: DROP TABLE then fails), set when a read raises while copying rows, '
+    'the iterator does not close its cursor (regenerated, T4t) and the caller keeps the exception',
     'histories: whether the options of a call are refused by _get_pixels_by_seg_frame (inside the with-block) is an input of the model, computed '
     'from the mask on the oracle side (combine_segments: overlap / non-binary fractions in the region; C02 models that method)',
 ]
@@ -855,7 +856,9 @@ def _seg_history(ctx, cfg, reader, E, segs, R, C, base_hist, reqs=None, pending=
             if lm:
                 data, refuses = [], False       # no table; overlap / binary-fraction refusals do not exist for label maps
             msteps.append({'data': data, 'nch': 1 if lm else (max(k for k, _ in data) + 1) if combine else len(sub), 'request': [list(req)],
-                           'refuses': refuses, 'labelmap': lm})
+                           'refuses': refuses, 'labelmap': lm,
+                           # overlap / non-binary fractions are detected while the rows of the frame query are being copied
+                           'mid_iteration': bool(refuses and combine)})
             raw = st == 'ok' and step in ('stacked', 'subset', 'dtype')
             mimpl.append({'state': _temp_table_rows(reader), 'outcome': 'ok' if st == 'ok' else val.split(':')[0],
                           'result': [np.asarray(val)[..., k].astype(np.int64).tolist() for k in range(len(sub))] if raw else None,
@@ -916,7 +919,7 @@ def _seg_history(ctx, cfg, reader, E, segs, R, C, base_hist, reqs=None, pending=
         if lm:      # stored as ONE matrix of labels, channel 0
             mats, msegs = [sum(s_ * E[s_] for s_ in segs).tolist()], [0]
         reqs.append(('segHistory', {'matrices': mats, 'segments': msegs, 'rows': R, 'cols': C, 'th': cfg['th'], 'tw': cfg['tw'],
-                                    'full': bool(full), 'omit_empty': bool(cfg['omit_empty']), 'steps': msteps}))
+                                    'full': bool(full), 'omit_empty': bool(cfg['omit_empty']), 'steps': msteps, 'exceptions_kept': bool(keep)}))
         pending.append(('history', mcases, mimpl, 'L0', 'history of segment-aware reads'))
 
 
